@@ -13,16 +13,21 @@ TraceLog == ndJsonDeserialize(IOEnv.TRACE_FILE)
 
 KitInit == TLCSet(1, 0) /\ TLCSet(2, 0)
 
-\* clauses: a sequence of <<name, BOOLEAN>>
+RECURSIVE JoinNames(_, _)
+JoinNames(bad, k) ==
+  IF k > Len(bad) THEN "" ELSE bad[k][1] \o (IF k < Len(bad) THEN "," ELSE "") \o JoinNames(bad, k + 1)
+
+\* clauses: a sequence of <<name, BOOLEAN>>; the verdict line is a single string (never wrapped)
 Verdict(id, clauses) ==
   LET bad == SelectSeq(clauses, LAMBDA c : ~c[2]) IN
   IF Len(bad) = 0
     THEN TLCSet(1, TLCGet(1) + 1)
-    ELSE /\ PrintT(<<"REJECT", id, [k \in 1..Len(bad) |-> bad[k][1]]>>)
+    ELSE /\ PrintT("REJECT|" \o ToString(id) \o "|" \o JoinNames(bad, 1))
          /\ TLCSet(2, TLCGet(2) + 1)
 
 KitPost ==
-  PrintT(<<"SUMMARY", TLCGet(1), TLCGet(2), Len(TraceLog), TLCGet("stats").diameter>>)
+  PrintT("SUMMARY|" \o ToString(TLCGet(1)) \o "|" \o ToString(TLCGet(2)) \o "|" \o ToString(Len(TraceLog))
+         \o "|" \o ToString(TLCGet("stats").diameter))
 
 \* a driver records obs = [crash |-> "...", where |-> "..."] when the code under test raised an
 \* exception where a result was expected
